@@ -174,6 +174,7 @@ class Trace:
         self.cold_cap = None if self.cluster_only else sim.buffer.cold[0].total_capacity
         self.extra = extra or {}
         self.provision_calls = []
+        self.task_obs = {}
         self.reservation_sizes = []
         self.pending_alloc = None
         self.check_every_event = None
@@ -235,6 +236,7 @@ class Trace:
             if self.parts is not None and s['res'] != obs:
                 self.V('C09', 'outside_reservation', f"{task} ({obs}) allocated on {mid} whose reservation is {s['res']}")
         rec['res_at_begin'] = s['res']
+        self.task_obs[task] = obs
         s['alloc'] = rec
         n_busy = sum(1 for x in self.m.values() if x['alloc'] is not None)
         self.max_alive['allocs'] = max(self.max_alive.get('allocs', 0), n_busy)
@@ -289,6 +291,11 @@ class Trace:
             self.max_alive['res'] = max(self.max_alive.get('res', 0), alive)
         else:
             if name in before_idle and name not in after:
+                # "the whole reservation returns to the free pool when the workflow's LAST TASK HAS FINISHED": no task body
+                # of that observation may still be executing anywhere
+                busy = [(mid, t) for mid, s in self.m.items() for t in s['work'] if self.task_obs.get(t) == name]
+                if busy and self.parts is not None:
+                    self.V('C09', 'released_while_task_running', f"reservation of {name} released at {self.env.now} while its task(s) {busy} are still executing")
                 self.last_release[name] = {mid for mid, s in self.m.items() if s['res'] == name}
                 for mid, s in self.m.items():
                     if s['res'] == name:
